@@ -97,8 +97,11 @@ def main():
                 viol = [l for l in c.stdout.split("\n") if l.startswith("VIOLATION")]
                 per[p] = {"exit": c.returncode, "violation_lines": "; ".join(viol[:2])}
             if benign:
-                meta["checks_run"] = per
-                meta["alarms"] = sorted(p for p, v in per.items() if v["exit"] != 0)
+                if only:
+                    meta.setdefault("checks_run", {}).update(per)
+                else:
+                    meta["checks_run"] = per
+                meta["alarms"] = sorted(p for p, v in meta["checks_run"].items() if v["exit"] != 0)
             else:
                 meta.setdefault("checks_run", {}).update(per)
                 meta["caught_by"] = sorted(p for p, v in meta["checks_run"].items() if v["exit"] == 1)
